@@ -648,7 +648,9 @@ class Glob(Generic[AnyStr]):
                 with os.scandir(scandir) as scan:
                     for f in scan:
                         try:
-                            hidden = self._is_hidden(f.name)  # type: ignore[arg-type]
+                            # Scanning a file descriptor yields `str` names, whatever the type of the patterns
+                            name = os.fsencode(f.name) if fd is not None and isinstance(self.empty, bytes) else f.name
+                            hidden = self._is_hidden(name)  # type: ignore[arg-type]
                             try:
                                 is_dir = f.is_dir()
                             except OSError:
@@ -660,7 +662,7 @@ class Glob(Generic[AnyStr]):
                                 # We don't care if a file is a link
                                 is_link = False
                             if (not dir_only or is_dir):
-                                yield f.name, is_dir, hidden, is_link  # type: ignore[misc]
+                                yield name, is_dir, hidden, is_link  # type: ignore[misc]
                         except OSError:  # pragma: no cover # noqa: PERF203
                             pass
             finally:
